@@ -63,9 +63,98 @@ func (l *ringLog) Tail(k int) []string {
 
 // Rcv is one message observed at a session's client side.
 type Rcv struct {
-	Seq int           // scheduler step at receipt
-	T   time.Duration // virtual time at receipt
-	Msg wamp.Message
+	Seq  int           // scheduler step at receipt
+	T    time.Duration // virtual time at receipt
+	Msg  wamp.Message  // private deep copy taken at receipt (EVENT, INVOCATION, RESULT); else the message itself
+	Live wamp.Message  // the object the router handed over
+	Snap string        // rendering at receipt
+}
+
+func deepVal(v any) any {
+	switch x := v.(type) {
+	case wamp.Dict:
+		if x == nil {
+			return x
+		}
+		out := make(wamp.Dict, len(x))
+		for k, e := range x {
+			out[k] = deepVal(e)
+		}
+		return out
+	case map[string]any:
+		out := make(map[string]any, len(x))
+		for k, e := range x {
+			out[k] = deepVal(e)
+		}
+		return out
+	case wamp.List:
+		if x == nil {
+			return x
+		}
+		out := make(wamp.List, len(x))
+		for i, e := range x {
+			out[i] = deepVal(e)
+		}
+		return out
+	case []any:
+		out := make([]any, len(x))
+		for i, e := range x {
+			out[i] = deepVal(e)
+		}
+		return out
+	}
+	return v
+}
+
+func deepMsg(m wamp.Message) wamp.Message {
+	switch x := m.(type) {
+	case *wamp.Event:
+		c := *x
+		c.Details, _ = deepVal(x.Details).(wamp.Dict)
+		c.Arguments, _ = deepVal(x.Arguments).(wamp.List)
+		c.ArgumentsKw, _ = deepVal(x.ArgumentsKw).(wamp.Dict)
+		return &c
+	case *wamp.Invocation:
+		c := *x
+		c.Details, _ = deepVal(x.Details).(wamp.Dict)
+		c.Arguments, _ = deepVal(x.Arguments).(wamp.List)
+		c.ArgumentsKw, _ = deepVal(x.ArgumentsKw).(wamp.Dict)
+		return &c
+	case *wamp.Result:
+		c := *x
+		c.Details, _ = deepVal(x.Details).(wamp.Dict)
+		c.Arguments, _ = deepVal(x.Arguments).(wamp.List)
+		c.ArgumentsKw, _ = deepVal(x.ArgumentsKw).(wamp.Dict)
+		return &c
+	}
+	return m
+}
+
+// scribble: what a careless in-process recipient might do to a message.
+func scribble(m wamp.Message) {
+	switch x := m.(type) {
+	case *wamp.Event:
+		if x.Details != nil {
+			x.Details["scribbled"] = true
+			delete(x.Details, "publisher")
+		}
+		if len(x.Arguments) > 0 {
+			x.Arguments[0] = "scribbled"
+		}
+		if x.ArgumentsKw != nil {
+			x.ArgumentsKw["scribbled"] = true
+		}
+	case *wamp.Invocation:
+		if x.Details != nil {
+			x.Details["scribbled"] = true
+		}
+		if len(x.Arguments) > 0 {
+			x.Arguments[0] = "scribbled"
+		}
+		if x.ArgumentsKw != nil {
+			x.ArgumentsKw["scribbled"] = true
+		}
+	}
 }
 
 // nonLocalPeer wraps a linked peer so that the router treats it as a network
@@ -106,6 +195,8 @@ type Sess struct {
 	drainDone  bool
 	CliClosed  bool
 	SendTimeouts int
+	Scribble     bool // in-process recipient that modifies what it receives
+	TransportDetails wamp.Dict
 	awaited      map[int]bool
 	OnRecv     func(s *Sess, m wamp.Message) // optional reactive behaviour, runs in the drainer goroutine
 }
@@ -183,7 +274,7 @@ func (s *Sess) StartAttach(transportDetails wamp.Dict) {
 // Join performs a plain (anonymous/local) join: attach, HELLO, expect WELCOME.
 // Returns false if the router answered with anything else.
 func (s *Sess) Join() bool {
-	s.StartAttach(nil)
+	s.StartAttach(s.TransportDetails)
 	d := wamp.Dict{}
 	for k, v := range s.Hello {
 		d[k] = v
@@ -228,8 +319,12 @@ func (s *Sess) drain() {
 				close(s.Dead)
 				return
 			}
-			s.Inbox = append(s.Inbox, Rcv{Seq: s.W.S.StepCount(), T: s.W.S.Elapsed(), Msg: msg})
-			simrt.Log("%s <- %s", s.Name, Brief(msg))
+			snap := Brief(msg)
+			s.Inbox = append(s.Inbox, Rcv{Seq: s.W.S.StepCount(), T: s.W.S.Elapsed(), Msg: deepMsg(msg), Live: msg, Snap: snap})
+			simrt.Log("%s <- %s", s.Name, snap)
+			if s.Scribble {
+				scribble(msg)
+			}
 			if s.OnRecv != nil {
 				s.OnRecv(s, msg)
 			}
@@ -503,5 +598,23 @@ func (s *Sess) Await(max time.Duration, pred func(m wamp.Message) bool) wamp.Mes
 			step = 5 * time.Second
 		}
 		time.Sleep(step)
+	}
+}
+
+// CheckImmutable: nothing delivered to a session may change afterwards.
+func CheckImmutable(c *Ctx, w *World) {
+	for _, s := range w.Sess {
+		if s.Scribble {
+			continue
+		}
+		for _, r := range s.Inbox {
+			if r.Live == nil {
+				continue
+			}
+			if now := Brief(r.Live); now != r.Snap {
+				c.Violf("message delivered to %s changed after delivery: was %s, now %s", s.Name, r.Snap, now)
+				return
+			}
+		}
 	}
 }
